@@ -14,7 +14,7 @@ import (
 )
 
 type C05Step struct {
-	Op       string `json:"op"` // auto txn observe
+	Op       string `json:"op"` // auto txn observe createtxn
 	Stmts    []Stmt `json:"stmts,omitempty"`
 	Implicit bool   `json:"implicit,omitempty"` // no write_time set: the transaction's own time
 	End      string `json:"end,omitempty"`      // commit rollback failcommit
@@ -31,6 +31,10 @@ type C05Step struct {
 	// succeed; either way everything the property promises about the transaction still holds.
 	Maint   string `json:"maint,omitempty"`
 	MaintAt int    `json:"maint_at,omitempty"`
+	// createtxn: BEGIN; CREATE VIRTUAL TABLE (own prefix); NRows single-row INSERTs (with the
+	// maintenance call after MaintAt of them); COMMIT or ROLLBACK. SQLite does not call the
+	// module's begin callback for a table created inside the running transaction.
+	NRows int `json:"nrows,omitempty"`
 }
 
 type C05Case struct {
@@ -66,6 +70,15 @@ func genC05Case(t *rapid.T) C05Case {
 		case r < 2:
 			c.Steps = append(c.Steps, C05Step{Op: "auto", Stmts: []Stmt{genStmt(t, cfg, "a")}})
 		case r < 3:
+			if rapid.Bool().Draw(t, "createtxn") {
+				st := C05Step{Op: "createtxn", NRows: rapid.IntRange(1, 4).Draw(t, "cnrows"), End: rapid.SampledFrom([]string{"commit", "commit", "rollback"}).Draw(t, "cend")}
+				if rapid.Bool().Draw(t, "cmaint") {
+					st.Maint = rapid.SampledFrom([]string{"refresh", "vacuum"}).Draw(t, "cmaintkind")
+					st.MaintAt = rapid.IntRange(0, st.NRows).Draw(t, "cmaintat")
+				}
+				c.Steps = append(c.Steps, st)
+				break
+			}
 			c.Steps = append(c.Steps, C05Step{Op: "observe"})
 		default:
 			st := C05Step{Op: "txn", Implicit: rapid.IntRange(0, 2).Draw(t, "implicit") == 0,
@@ -269,6 +282,98 @@ func runC05(c C05Case, o *Obs) error {
 			if err := checkObserver(where); err != nil {
 				return err
 			}
+		case "createtxn":
+			ip := fmt.Sprintf("inner%d", i)
+			isp := TableSpec{Name: uniqName("ti"), Columns: "k primary key, a", Bucket: bucket, Client: "w", Prefix: ip, EPN: c.EPN}
+			if err := conn.Exec("begin"); err != nil {
+				return fmt.Errorf("%s: begin: %v", where, err)
+			}
+			if err := conn.Create(isp); err != nil {
+				return fmt.Errorf("%s: CREATE VIRTUAL TABLE inside the transaction: %v", where, err)
+			}
+			imaint := func(at int) error {
+				if st.Maint == "" || st.MaintAt != at {
+					return nil
+				}
+				var e error
+				if st.Maint == "refresh" {
+					e = conn.Refresh(isp.Name)
+				} else {
+					e = conn.Vacuum(isp.Name, baseTime-1000)
+				}
+				o.Class(fmt.Sprintf("createtxn-%s-inside(refused=%v)", st.Maint, e != nil))
+				rows, err := conn.Query("select k from " + isp.Name)
+				if err != nil || len(rows) != at {
+					return fmt.Errorf("%s: after s3db_%s in the middle of the transaction (result: %v) the connection reads %d of the %d rows it has inserted into the table it created in this transaction (err %v)", where, st.Maint, e, len(rows), at, err)
+				}
+				return nil
+			}
+			if err := imaint(0); err != nil {
+				return err
+			}
+			for j := 1; j <= st.NRows; j++ {
+				if err := conn.Exec("insert into "+isp.Name+"(k,a) values (?,?)", j, j); err != nil {
+					return fmt.Errorf("%s: insert %d: %v", where, j, err)
+				}
+				if err := imaint(j); err != nil {
+					return err
+				}
+			}
+			// nothing of it is visible to anybody else yet
+			if vs := versionObjects(store, tablePrefix(ip)); len(vs) > 0 && st.Maint == "" {
+				return fmt.Errorf("%s: before the transaction ended the bucket holds version objects of the new table: %v", where, vs)
+			}
+			fresh := func() (Rows, error) {
+				fc := newConn()
+				defer fc.Close()
+				fs := isp
+				fs.Name, fs.Client, fs.ReadOnly = uniqName("fi"), "freshi", true
+				if err := fc.Create(fs); err != nil {
+					return nil, err
+				}
+				return fc.Query("select k from " + fs.Name)
+			}
+			if rows, err := fresh(); err != nil || len(rows) != 0 {
+				return fmt.Errorf("%s: before the transaction ended another connection reads %d rows of the new table (err %v)", where, len(rows), err)
+			}
+			if st.End == "commit" {
+				if err := conn.Exec("commit"); err != nil {
+					return fmt.Errorf("%s: commit: %v", where, err)
+				}
+				rows, err := conn.Query("select k from " + isp.Name)
+				if err != nil || len(rows) != st.NRows {
+					return fmt.Errorf("%s: after COMMIT the connection reads %d of %d rows of the table it created in the transaction (err %v)", where, len(rows), st.NRows, err)
+				}
+				if rows, err := fresh(); err != nil || len(rows) != st.NRows {
+					return fmt.Errorf("%s: COMMIT was acknowledged but another connection reads %d of the %d rows (err %v)", where, len(rows), st.NRows, err)
+				}
+				if err := conn.Drop(isp.Name); err != nil {
+					return fmt.Errorf("%s: drop: %v", where, err)
+				}
+			} else {
+				if err := conn.Exec("rollback"); err != nil {
+					return fmt.Errorf("%s: rollback: %v", where, err)
+				}
+				if _, err := conn.Query("select k from " + isp.Name); err == nil {
+					return fmt.Errorf("%s: after ROLLBACK the table created inside the transaction still exists", where)
+				}
+				if rows, err := fresh(); err != nil || len(rows) != 0 {
+					return fmt.Errorf("%s: after ROLLBACK another connection reads %d rows of the table (err %v)", where, len(rows), err)
+				}
+			}
+			o.Class("createtxn-" + st.End)
+			// (rolling back a CREATE makes SQLite drop its loaded schema: the connection's other
+			// virtual tables are re-connected when next named in SQL; the Go-level dumps below
+			// look tables up by name, so name them once)
+			if t2 != "" {
+				if _, err := conn.Query("select 1 from " + t2 + " limit 0"); err != nil {
+					return fmt.Errorf("%s: the second table cannot be used afterwards: %v", where, err)
+				}
+			}
+			// the main table is untouched
+			if err := checkRows(where); err != nil {
+				return err
+			}
 		case "auto":
 			if len(st.Stmts) != 1 || !st.Stmts[0].wellFormed() {
 				continue
@@ -346,6 +451,14 @@ func runC05(c C05Case, o *Obs) error {
 					// published or dropped pending writes, the row checks above and below report it.)
 					preVersions = versionObjects(store, prefix)
 					logFrom = store.LogLen()
+					if st.Maint == "vacuum" && c.EPN < 4096 && !c.NoSteer && !c.NoSteerK4 {
+						// K4 steer: a vacuum leaves the handle on a clone of its tree, which shares
+						// nodes with the BEGIN snapshot taken next (the precondition of K4, confirmed
+						// with the patched dependency): re-open, if the table lets us
+						if conn.Refresh(tn) == nil {
+							o.Exclude("K4-refresh-after-vacuum-on-multi-node-tree")
+						}
+					}
 					if preVer, e = conn.Version(tn); e != nil {
 						return e
 					}
